@@ -318,6 +318,61 @@ fn ns_total(input: &[u8]) -> Result<(), String> {
     Ok(())
 }
 
+/// Scope at ANY depth: a declaration on an element nested `depth` levels deep ends with that element, whatever the depth
+/// (deterministic documents of 300 / 65 535 / 65 536 / 65 537 / 70 000 levels; expectation: the declarative scope).
+fn ns_deep() -> Result<u64, String> {
+    use quick_xml::events::Event;
+    use quick_xml::name::ResolveResult;
+    use quick_xml::NsReader;
+    let mut runs = 0u64;
+    for depth in [300usize, 65_535, 65_536, 65_537, 70_000] {
+        let mut doc = String::with_capacity(depth * 8 + 100);
+        doc.push_str("<r>");
+        for _ in 1..depth {
+            doc.push_str("<d>");
+        }
+        doc.push_str("<e xmlns:p='urn:u' xmlns='urn:v'/><p:f/><g/>");
+        for _ in 1..depth {
+            doc.push_str("</d>");
+        }
+        doc.push_str("</r>");
+        let r = std::panic::catch_unwind(|| -> Result<(), String> {
+            let mut reader = NsReader::from_str(&doc);
+            loop {
+                match reader.read_resolved_event() {
+                    Ok((res, Event::Empty(e))) => {
+                        let name = e.name().as_ref().to_vec();
+                        let want_bound = name == b"e";
+                        let ok = match (&res, name.as_slice()) {
+                            (ResolveResult::Bound(_), b"e") => true,
+                            (ResolveResult::Unknown(_), b"p:f") => true,
+                            (ResolveResult::Unbound, b"g") => true,
+                            _ => false,
+                        };
+                        if !ok {
+                            return Err(format!("depth {depth}: <{}> resolves to {res:?}", String::from_utf8_lossy(&name)));
+                        }
+                        let n = reader.prefixes().count();
+                        if (want_bound && n != 2) || (!want_bound && name == b"g" && n != 0) {
+                            return Err(format!("depth {depth}: {n} prefixes in scope at <{}>", String::from_utf8_lossy(&name)));
+                        }
+                    }
+                    Ok((_, Event::Eof)) => return Ok(()),
+                    Ok(_) => {}
+                    Err(e) => return Err(format!("depth {depth}: {e}")),
+                }
+            }
+        });
+        runs += 1;
+        match r {
+            Ok(Ok(())) => {}
+            Ok(Err(e)) => return Err(e),
+            Err(_) => return Err(format!("depth {depth}: panic")),
+        }
+    }
+    Ok(runs)
+}
+
 pub fn replay(file: &str, prop: &str, out_dir: &str, known_dev: &str) -> Value {
     let mut total_seen: std::collections::HashSet<Vec<u8>> = std::collections::HashSet::new();
     let f = std::io::BufReader::new(std::fs::File::open(file).expect("behaviour file"));
@@ -385,6 +440,17 @@ pub fn replay(file: &str, prop: &str, out_dir: &str, known_dev: &str) -> Value {
                     files.push(path);
                 }
             }
+        }
+    }
+    match ns_deep() {
+        Ok(r) => runs += r,
+        Err(e) => {
+            viol += 1;
+            let path = format!("{}/{}-deep-{}.json", out_dir, prop, files.len());
+            std::fs::create_dir_all(out_dir).ok();
+            std::fs::write(&path, serde_json::to_string_pretty(&json!({"property": prop, "kind": "ns-deep", "what": e})).unwrap()).ok();
+            println!("VIOLATION property={} replay={}", prop, path);
+            files.push(path);
         }
     }
     let mut du = serde_json::Map::new();
